@@ -23,6 +23,8 @@
       initialised is [OOB].  [NOFUEL] is the model's own "loop did not end
       within the fuel" outcome ([addrxlat_walk] has no bound of its own for
       custom methods); the theorems state a fuel that suffices.
+    - [first_step_pgt] has the guard of the fix "reject paging forms with more
+      fields than the PTE format has levels" ([pf_max_fields]).
     - This models the tree with fixes/01 (LPA/LPA2 output-address field is 48
       resp. 50 bits wide) and fixes/02 (s390x table offset/length compare the
       two topmost bits of the next index) applied.
@@ -234,9 +236,22 @@ Definition step_check_saddr (pf : pform) (s : step) : status * step :=
     if nthN (s_idx s) (S l1) =? signext then (OK, s) else (INVALID, s)
   end.
 
+(** [pf_max_fields]: the number of paging levels the architecture defines, plus
+    one for the page offset (the per-format step functions have per-level data
+    only for those) *)
+Definition pf_max_fields (f : ptefmt) : nat :=
+  match f with
+  | PTE_ARM | PTE_IA32 => 3
+  | PTE_IA32_PAE => 4
+  | PTE_PPC64_LINUX_RPN30 => 5
+  | PTE_AARCH64 | PTE_AARCH64_LPA | PTE_AARCH64_LPA2 | PTE_RISCV64 | PTE_S390X | PTE_X86_64 => 6
+  | PTE_NONE | PTE_PFN32 | PTE_PFN64 | PTE_RISCV32 => 8            (* ADDRXLAT_FIELDS_MAX *)
+  end.
+
 (** [first_step_pgt] *)
 Definition first_step_pgt (root_as : aspace) (root : N) (pf : pform)
            (s : step) (addr : N) : status * step :=
+  if (pf_max_fields (pte_format pf) <? length (fieldsz pf))%nat then (NOTIMPL, s) else   (* "Too many paging levels" *)
   match pte_format pf with
   | PTE_NONE | PTE_AARCH64 | PTE_AARCH64_LPA | PTE_AARCH64_LPA2 | PTE_ARM
   | PTE_PPC64_LINUX_RPN30 =>
